@@ -817,9 +817,12 @@ Proof.
   eexists. split; [reflexivity|].
   destruct (add_all_dedup p0 t) as [ring [E1 E2]]. rewrite Epath at 1. rewrite E1.
   unfold rings_out, untag. cbn [rev app map filter].
-  rewrite rev_length. rewrite <- (map_length fst ring), E2, rev_length, <- Epath.
+  assert (Hlen : length (rev ring) = length (dedup path)).
+  { rewrite rev_length. pose proof (f_equal (@length pt) E2) as HL. rewrite map_length, rev_length, <- Epath in HL. exact HL. }
+  rewrite Hlen.
   destruct (2 <=? length (dedup path))%nat; [|reflexivity].
-  cbn [map]. rewrite map_rev, E2, rev_involutive, <- Epath. reflexivity.
+  cbn [map]. f_equal. transitivity (rev (map fst ring)); [apply map_rev|].
+  rewrite E2, rev_involutive, <- Epath. reflexivity.
 Qed.
 
 Corollary lines_identity_nodup gsi r path :
@@ -839,4 +842,47 @@ Proof.
   destruct (negb (rect_intersects r (get_bounds path))); [reflexivity|].
   replace (length path <? 2)%nat with true by (symmetry; apply Nat.ltb_lt; exact Hn).
   cbn [orb]. reflexivity.
+Qed.
+
+(* ---------- statements in the form used by props/Properties_C09.v ---------- *)
+Lemma lines_provenance_pointwise gsi r path out piece v s :
+  rect_clip_lines_g gsi r path = Ok out -> In piece out -> In (v, s) piece ->
+  match s with
+  | SV i => nth_error path i = Some v /\ in_rect r v
+  | SI i => exists a b, seg_at path i a b /\ (gi_result gsi r b a v \/ gi_result gsi r a b v)
+  | SX i => exists a b, seg_at path i a b /\ exists loc l', get_intersection_g gsi r a b loc default_pt = (false, l', v)
+  | SC _ => False
+  end.
+Proof.
+  intros E Hp Hv. apply lines_provenance in E. unfold all_pts in E. rewrite Forall_forall in E.
+  specialize (E piece Hp). rewrite Forall_forall in E. exact (E (v, s) Hv).
+Qed.
+
+Lemma lines_inside_pointwise gsi r path out piece v s :
+  gsi_sound gsi r -> rect_clip_lines_g gsi r path = Ok out -> In piece out -> In (v, s) piece ->
+  match s with SV _ => within r 0 v | SI _ => within r 1 v | SX _ => True | SC _ => False end.
+Proof.
+  intros Hs E Hp Hv. apply (lines_inside_partial _ _ _ _ Hs) in E. unfold all_pts in E. rewrite Forall_forall in E.
+  specialize (E piece Hp). rewrite Forall_forall in E. exact (E (v, s) Hv).
+Qed.
+
+(* hypotheses are satisfiable *)
+Example gsi_sound_sat : forall r, gsi_sound (fun _ _ _ _ ip => (false, ip)) r.
+Proof. intros r x y a b ip v _ H. discriminate. Qed.
+
+Example lines_identity_sat :
+  let r := mkRect 0 0 10 10 in let p := [(1, 1); (10, 5); (3, 0)] in
+  rect_is_empty r = false /\ (2 <= length p)%nat /\ (forall v, In v p -> in_rect r v) /\ no_consec_dup p
+  /\ rect_clip_lines r p = [p].
+Proof.
+  cbv zeta. split; [reflexivity|]. split; [cbn; lia|]. split.
+  - intros v [<-|[<-|[<-|[]]]]; unfold in_rect; cbn; lia.
+  - split; [cbn; repeat split; discriminate|vm_compute; reflexivity].
+Qed.
+
+(* the real model (binary64 GetSegmentIntersection) *)
+Corollary rect_clip_lines_total r p : exists out, rect_clip_lines_t r p = Ok out /\ rect_clip_lines r p = untag out.
+Proof.
+  destruct (lines_no_error get_segment_intersection r p) as [out E]. exists out. split; [exact E|].
+  unfold rect_clip_lines. fold (rect_clip_lines_t r p) in E. rewrite E. reflexivity.
 Qed.
